@@ -35,6 +35,28 @@ type c11Op struct {
 	Reg     string      `json:"reg,omitempty"` // registered suite name (overrides Cfg)
 	In      ref.OCRAIn  `json:"in"`
 	Text    string      `json:"text,omitempty"`
+	// Shared != 0: the *Param handed to the call is ONE struct shared by every call of the script with the same settings
+	// (callers keep a configuration and pass its address from all goroutines); 2 = its Period is 0, which means 30
+	Shared int `json:"shared_param,omitempty"`
+}
+
+type c11ParamKey struct{ d, a, s, shared int }
+
+// c11Params holds the shared parameter structs of the script that is running; every script starts with fresh ones.
+var c11Params sync.Map
+
+func resetSharedParams() {
+	c11Params.Range(func(k, _ any) bool { c11Params.Delete(k); return true })
+}
+
+func sharedParam(o c11Op) *otp.Param {
+	k := c11ParamKey{o.Digits, o.Algo, o.Skew, o.Shared}
+	per := uint(30)
+	if o.Shared == 2 {
+		per = 0
+	}
+	v, _ := c11Params.LoadOrStore(k, &otp.Param{Digits: otp.Digits(o.Digits), Algorithm: otp.Algorithm(o.Algo), Period: per, Skew: uint(o.Skew)})
+	return v.(*otp.Param)
 }
 
 type c11Res struct {
@@ -96,6 +118,9 @@ func (o c11Op) expect() c11Res {
 func (o c11Op) run() c11Res {
 	secret := ref.B32(o.Key)
 	p := &otp.Param{Digits: otp.Digits(o.Digits), Algorithm: otp.Algorithm(o.Algo), Period: 30, Skew: uint(o.Skew)}
+	if o.Shared != 0 {
+		p = sharedParam(o)
+	}
 	switch o.Kind {
 	case "hotp-gen":
 		s, err := otp.GenerateHOTP(secret, o.Counter, p)
@@ -362,6 +387,9 @@ func drawC11OpOfKind(t *rapid.T, kind string) c11Op {
 	o.Algo = rapid.IntRange(0, 2).Draw(t, "algo")
 	o.Skew = rapid.IntRange(0, 3).Draw(t, "skew")
 	o.Dist = rapid.IntRange(-4, 4).Draw(t, "dist")
+	if (strings.HasPrefix(o.Kind, "hotp") || strings.HasPrefix(o.Kind, "totp")) && rapid.Bool().Draw(t, "sharedParam") {
+		o.Shared = rapid.IntRange(1, 2).Draw(t, "sharedKind")
+	}
 	if strings.HasPrefix(o.Kind, "ocra") {
 		switch rapid.IntRange(0, 2).Draw(t, "suiteSrc") {
 		case 0:
@@ -461,6 +489,7 @@ func raceText() string {
 
 func checkC11Conc(c c11ConcCase) verdict {
 	defer ev.Inflight("C11", "concurrent-race", c)()
+	resetSharedParams()
 	old := runtime.GOMAXPROCS(c.Procs)
 	defer runtime.GOMAXPROCS(old)
 	// sequential reference first
@@ -630,6 +659,7 @@ type c11SatCase struct {
 
 func checkC11Sat(c c11SatCase) verdict {
 	defer ev.Inflight("C11", "saturation", c)()
+	resetSharedParams()
 	old := runtime.GOMAXPROCS(c.Procs)
 	defer runtime.GOMAXPROCS(old)
 	want := c.Op.expect()
